@@ -548,7 +548,9 @@ struct IntCell {
             u(U_TP_POSTDEC_STATE, sit0, args, argh, cc - 1, x);
         }
         long long const ks[] = {-7, -1, 1, 2, 3, 1000};
+        bool const scalar_ops = c.cs->tier == vf::Tier::thorough || (cc % 4 == 0) || cc > 2000 || cc < -2000;
         for (long long k : ks) {
+            if (!scalar_ops) { break; }
             char a2[96];
             std::snprintf(a2, sizeof a2, "count=%s k=%lld", s128(cc).c_str(), k);
             char s2[96];
@@ -624,7 +626,7 @@ struct IntCell {
         std::vector<i128> const us = unary_counts(c, D);
         for (i128 cc : us) { unary(cc); }
         // binary: a thinned list of left operands x right operands chosen around lhs (in common ticks) and around zero
-        std::size_t const step = c.random ? 2 : (c.cs->tier == vf::Tier::thorough ? 3 : 9);
+        std::size_t const step = c.random ? 4 : (c.cs->tier == vf::Tier::thorough ? 3 : 12);
         for (std::size_t i = 0; i < us.size(); i += step) {
             i128 const c1 = us[i];
             std::vector<i128> rs;
@@ -1022,7 +1024,7 @@ vf::Spec spec(vf::Tier t)
     build_cells();
     vf::Spec s;
     s.n_enum     = cells().size();
-    s.n_random   = (t == vf::Tier::thorough ? 40 : 6) * cells().size();
+    s.n_random   = (t == vf::Tier::thorough ? 40 : 2) * cells().size();
     s.batch      = 1;
     s.timeout_s  = 600;
     s.exhaustive = true;
